@@ -822,6 +822,30 @@ def opRDM (args obs : List String) : P String := do
     pure (functional [showShape [r1, c2], showList showRat vals] obs)
   | _ => throw "RDM: arity"
 
+def pStep (tok : String) : P Step := do
+  match tok.splitOn ":" with
+  | ["W", vs] => do let vs ← pList pRat vs; pure (.write vs)
+  | ["S", vs] => do let vs ← pList pRat vs; pure (.write vs)
+  | ["I", i, v] => do let i ← pNat i; let v ← pRat v; pure (.windex i v)
+  | ["R"] => pure .reset
+  | ["Z", s, n, f] => do let g ← pFmt s n f; pure (.resize g)
+  | ["D", y] => pure (.derive (y == "1"))
+  | _ => throw s!"bad step {tok}"
+
+/-- `HIST <size> <fmt> <r> <o> <step>* | <flags:events>*` — a history on one object (`size` 0 = scalar).
+Steps: `W:[v..]` whole write, `I:i:v` indexed write, `R` reset, `Z:s:n:f` resize, `D:b` derive `x + y`. -/
+def opHIST (args obs : List String) : P String := do
+  match args with
+  | size :: s :: n :: f :: r :: o :: steps =>
+    let size ← pNat size
+    let fmt ← pFmt s n f
+    let r ← pRounding r
+    let o ← pOverflow o
+    let steps ← steps.mapM pStep
+    let x0 : Obj := { fmt := fmt, r := r, o := o, codes := List.replicate (max size 1) 0, ov := false, un := false, inacc := false }
+    pure (functional (run x0 steps) obs)
+  | _ => throw "HIST: arity"
+
 /-- `UN <op=neg|pos|abs> <fx> [codes] | s n f [codes]` — unary operators build a default-config object. -/
 def opUN (args obs : List String) : P String := do
   match args with
@@ -856,6 +880,7 @@ def dispatch (op : String) (args obs : List String) : P String :=
   | "NC" => opNC args obs
   | "DR" => opDR args obs
   | "SB" => opSB args obs
+  | "HIST" => opHIST args obs
   | "RD" => opRD args obs
   | "RDD" => opRDD args obs
   | "RDC" => opRDC args obs
